@@ -474,6 +474,23 @@ static void ProcessFile(char const* FileName, LongWord Offset) {
                         TransLen = min(4, TransLen);
                     }
 
+                    /* Intel16: offsets must stay within the 64K segment */
+
+                    if ((ActFormat == eHexFormatIntel16)
+                        && (((ErgStart - IntOffset) + (TransLen / Gran))
+                                    * ((MultiMode < 2) ? Gran : 1)
+                            > 0x10000)) {
+                        IntOffset = (ErgStart * Gran);
+                        IntOffset -= IntOffset & 0x0f;
+                        HSeg   = IntOffset >> 4;
+                        ChkSum = 4 + Lo(HSeg) + Hi(HSeg);
+                        IntOffset /= Gran;
+                        errno = 0;
+                        fprintf(TargFile, ":02000002%04X%02X\n", LoWord(HSeg),
+                                Lo(0x100 - ChkSum));
+                        ChkIO(TargName);
+                    }
+
                     /* Start der Datenzeile */
 
                     switch (ActFormat) {
